@@ -430,6 +430,10 @@ class Parser:
                 raise Unsupported("unbalanced")
 
     def fn(self, attrs, vis, cfgs, const=False):
+        out = self.fn_(attrs, vis, cfgs, const, self.i)
+        return out
+
+    def fn_(self, attrs, vis, cfgs, const, fn_start):
         self.expect("kw", "fn")
         name = self.ident()
         generics = None
@@ -480,8 +484,10 @@ class Parser:
                 body = None
                 body_err = str(e)
             body_span = (start, self.i)
-            return ("fn", name, selfkind, params, ret, body, {"attrs": attrs, "cfgs": cfgs, "generics": generics, "err": body_err, "span": body_span, "const": const})
-        return ("fn", name, selfkind, params, ret, None, {"attrs": attrs, "cfgs": cfgs, "generics": generics, "err": None, "span": None, "const": const})
+            return ("fn", name, selfkind, params, ret, body, {"attrs": attrs, "cfgs": cfgs, "generics": generics, "err": body_err, "span": body_span, "const": const,
+                                                                "tokens": self.t[fn_start:self.i]})
+        return ("fn", name, selfkind, params, ret, None, {"attrs": attrs, "cfgs": cfgs, "generics": generics, "err": None, "span": None, "const": const,
+                                                           "tokens": self.t[fn_start:self.i]})
 
     def skip_block(self):
         self.expect("punct", "{")
